@@ -8,17 +8,18 @@ git -C /repo worktree remove --force $wt 2>/dev/null
 git -C /repo worktree add -q --detach $wt HEAD || exit 2
 export VERIF_EVIDENCE_DIR=/tmp/sweep_evidence VERIF_REPLAY_DIR=/tmp/sweep_replays VERIF_REPO=$wt
 : > $out
-for d in /verif/seeded/c*/; do
+for d in /verif/seeded/[c-z][0-9]*/; do
   id=$(basename $d); prop=$(python3 -c "import json;print(json.load(open('$d/meta.json'))['property'])")
   checks="$prop"
   [ "$id" = c03 ] && checks="C03 C16"
   [ "$id" = c04 ] && checks="C04 C10"
+  [ "$id" = d01 ] && checks="C01 C07"
   [ -n "$SWEEP_ONLY" ] && ! echo " $SWEEP_ONLY " | grep -q " $id " && continue
   git -C $wt apply $d/patch.diff || { echo "$id: patch does not apply" >> $out; continue; }
   for c in $checks; do
     start=$(date +%s)
-    timeout 5400 python3-vt /verif/check.py $c --tier $tier > /tmp/sweep_$id_$c.log 2>&1; rc=$?
-    n=$(grep -c "^VIOLATION" /tmp/sweep_$id_$c.log)
+    timeout 5400 python3-vt /verif/check.py $c --tier $tier > /tmp/sweep_${id}_$c.log 2>&1; rc=$?
+    n=$(grep -c "^VIOLATION" /tmp/sweep_${id}_$c.log)
     echo "$id check=$c tier=$tier exit=$rc violations=$n seconds=$(( $(date +%s) - start ))" >> $out
   done
   git -C $wt checkout -- .
